@@ -17,21 +17,21 @@ CHECKS = {
     "C12": ("model_checking", "Search.tla invariants (TLC) + spec->code replay (B1) + output-file trace validation (B2)",
             "What hp_eft describes (lastSim) and what is returned (field, height) are state variables of the model; ReportedIsLastSim is checked in every terminal state for all four solve_root outcomes and all searches, then on the real objects.",
             "hp_eft of the double is what simulate() last produced; summary/CSV consistency is judged on real runs (B2)", "5/C12"),
-    "C20": ("model_checking", "Search.tla flow bookkeeping (TLC) + spec->code replay (B1) + paired real runs (B2)",
+    "C20": ("model_checking", "Search.tla flow bookkeeping + Wiring.tla forwarding table (TLC) + spec->code replay (B1) + paired real runs (B2)",
             "Every evaluation event of the model carries the system flow and per-borehole mass flow implied by the flow type and the field's count; the replay compares them with what the real retrieve_flow hands to GHE and to the g-function call for every search class.",
             "fluid density is a constant of the double in B1; real fluids in B2", "5/C20"),
     "C06": ("model_checking", "HybridLoads.tla model checking + replay into process_month_loads / HybridLoad constructor (B1 levels A, B)",
             "Per-month energy conservation is a structural invariant of the segment machine (segments tile the month, every due pulse lasts its duration, average time equals the divisor of the monthly rate); TLC enumerates peak presence x peak-day order x first/middle/last day x duration classes x retention flags x horizons and the real code is replayed on every case.",
             "level B stubs the 48-hour peak-duration simulation; conservation on the code's own arrays is measured in exact rationals with tolerance 1e-8 of the month's absolute energy plus the 1e-6 h placeholder term", "5/C06"),
-    "C07": ("model_checking", "HybridLoads.tla invariants (TLC) + replay (B1 levels A, B)",
+    "C07": ("model_checking", "HybridLoads.tla + PeakScale.tla + Calendar.tla windows (TLC) + replay (B1 levels A, B) + real hourly profiles through the real HybridLoad (B2/B3)",
             "Pulse presence / absence, sign, retention months, duration range and centring are invariants of the same machine over the same enumerated input classes, replayed into the real code.",
-            "the Cullin-Spitler duration definition itself (last clause) is judged by the spec-bound reference in the thorough tier only; durations are inputs of the month machine", "5/C07"),
+            "durations are inputs of the month machine; the Cullin-Spitler definition (last clause) is judged by the spec-bound superposition reference on random 48 h windows and on random real hourly profiles (month-end snaps, one-direction months); which load the window is scaled by is PeakScale.tla, replayed case by case", "5/C07"),
     "C08": ("model_checking", "HybridLoads.tla + Calendar.tla (TLC) + replay (B1)",
             "Month-end breakpoints, horizon end, yearly repetition and strict monotonicity unless windows overlap are invariants over all horizons in the configuration; the calendar helpers are proved equal to the reference calendar for months 1..360 and replayed against the real helpers.",
-            "non-leap single-year load list (the only mode the manager uses)", "5/C08"),
+            "leap and non-leap load years; real hourly profiles are sampled", "5/C08"),
     "C03": ("model_checking", "Domains.tla symbolic generators (TLC) + list-for-list replay of the real generators + random real-valued lots",
             "Each generator is transcribed as an exact-rational loop; TLC checks extents, spacing and ordering of every candidate on every admissible integer lot of the configuration, and the real generators are compared candidate by candidate (count, extents from real coordinates, minimum pair distance measured with a KD-tree).",
-            "lots where a float ceil/floor/ratio comparison differs from exact arithmetic are judged by the property predicates only (either rounding is legal); bi-rectangle row-count rounding is the listed finding F15", "5/C03"),
+            "lots where a float ceil/floor/ratio comparison differs from exact arithmetic are judged by the property predicates only (either rounding is legal); bi-rectangle row-count rounding (F15) was repaired in /repo (a13b64d)", "5/C03"),
     "C04": ("model_checking", "Polygon.tla land-constraint filter (TLC) + replay of remove_cutout + end-to-end polygonal_land_constraint on random outlines",
             "The kept set of all 49 half-lattice points is computed in the model for every simple lattice polygon x each no-go polygon and compared with remove_cutout; the end-to-end generator is judged with the exact rational classifier bound to the specification.",
             "lattice scaled by 5 m so no off-edge lattice point falls in the 0.01 tolerance band; random outlines are star-shaped simple polygons", "5/C04"),
@@ -40,7 +40,7 @@ CHECKS = {
             "random real-valued polygons are judged only outside the tolerance band", "5/C16"),
     "C13": ("model_checking", "Manager.tla / GheObject.tla history generation (TLC) + execution of every history on the real classes with bit-for-bit comparison",
             "Object identity, snapshot capture at set_design and the cells that survive between simulate/size calls are modelled as state; TLC generates API histories (exhaustively at object level, by simulation at manager level) and every history is executed on the real code; results must be bit-identical inside each class of equal physical snapshot and equal to a fresh object's.",
-            "manager histories are TLC-simulated (random) rather than exhaustive; tiny configurations (4-20 boreholes, 12 months)", "5/C13"),
+            "manager histories are TLC-simulated (random) rather than exhaustive; tiny configurations (4-20 boreholes, 12 months) plus one shared-load-list scenario (24-month hourly run on one object, 12-month on another)", "5/C13"),
     "C17": ("model_checking", "InputFile.tla over the configuration product with schema facts regenerated from the repository (TLC) + write/validate/load/write replay",
             "WrittenIsValid, RoundTrip and WriteIsIdempotent are checked by TLC for all 1680 configurations against the repository's own schema requirements; every configuration (quick: a covering sample) is executed through the real setters, writer, validator and command-line loader and the two files compared byte for byte.",
             "numeric values are random in range per seed; schema facts used by the model: required keys and enumerations", "5/C17"),
@@ -52,13 +52,13 @@ CHECKS = {
             "table clauses are judged on a few real designs (2 quick, 9 thorough)", "5/C19"),
     "C09": ("model_checking", "Superposition.tla small-domain theorems (TLC) + replay of _simulate_detailed + spec-bound reference on real GHE objects",
             "The documented formula is an operator over integers; TLC checks zero-load, linearity, additivity and sign on every load/time sequence within the bounds and prints exact values; the real _simulate_detailed is replayed on every case, and real simulate() runs (both time-step methods) are judged step by step by a transliteration that is itself checked against the same TLC output.",
-            "real-valued runs are sampled (4 quick / 15 thorough objects); tolerance 1e-9 relative", "5/C09"),
-    "C11": ("model_checking", "GJoin.tla exhaustive axis pairs (TLC) + replay of combine_sts_lts + real GFunction / GHE objects",
-            "The join is exhaustively checked over all pairs of integer axes within the bounds and replayed into the real static method; the stored-height identity, the radius correction and the interpolation cache are exercised on real GFunction objects and both join branches on real GHE objects.",
+            "real-valued runs are sampled (5 quick / 16 thorough objects incl. a 24-month hourly run); tolerance 1e-9 relative", "5/C09"),
+    "C11": ("model_checking", "GJoin.tla exhaustive axis pairs + GInterp.tla decision table (TLC) + replay of combine_sts_lts / g_function_interpolation + real GFunction / GHE objects",
+            "The join is exhaustively checked over all pairs of integer axes within the bounds and replayed into the real static method; the stored-height identity, the radius correction and the interpolation cache are exercised on real GFunction objects (tables stored in shuffled height order), the decision table and cache of g_function_interpolation are GInterp.tla replayed case by case, and both join branches run on real GHE objects.",
             "NOT decided here: the analytic finite-line-source anchor (1e-4 / 1e-6) and the 20 % MIFT band of the property - they are numerical statements about pygfunction with no discrete structure (DESIGN.md section 10); exact float coincidence of a short-time point with -8.5 is the listed finding F17", "5/C11"),
     "C14": ("model_checking", "RowWiseSweep.tla sweep + liveness (TLC) + replay with count oracle + closed-form lattice + watchdog runs on random convex lots",
             "First-strict-maximum selection and termination of the sweep are checked exhaustively on the model and replayed into both optimisers; the closed-form lattice is compared on every integer lot in range; geometry clauses (inside, no-go, spacing, translation) are measured on random convex lots under a wall-clock watchdog.",
-            "geometry clauses are sampled (exploration); translation is judged only when per-rotation counts agree (borderline row ends are fp-dependent); exact-divisible lot sizes accept either rounding", "5/C14"),
+            "geometry clauses are sampled (exploration); translation is judged only when per-rotation counts agree (borderline row ends are fp-dependent); exact-divisible lot sizes accept either rounding; a row through two no-go vertices is the listed finding F20", "5/C14"),
     "C15": ("other", "EquivPipe.tla (thin model, TLC) + batch trace validation of recorded to_single() conversions (EquivTrace.tla)",
             "Trace invariants over a thin model: each recorded conversion is a 5-event trace with measured deviations; TLC validates all traces in one run and returns a verdict per trace. Volumes and the bracketed pipe-conductivity solve are judged; the grout solve never brackets on this tree (listed finding F11).",
             "random geometries; R_b* evaluated by pygfunction for both exchangers; the convective+pipe target is the tool's own definition", "5/C15"),
